@@ -139,6 +139,12 @@ func (s *session) step(a Act) (reply []any, err error) {
 			pairs = append(pairs, []string{string(k), string(v)})
 		}
 		sort.Slice(pairs, func(i, j int) bool { return pairs[i][0] < pairs[j][0] || (pairs[i][0] == pairs[j][0] && pairs[i][1] < pairs[j][1]) })
+		// a consumer may stop an iteration after any number of entries: the iterator must then stop
+		// too (never call yield again), and what it delivered must be distinct members of the full
+		// iteration -- on every backend alike
+		if msg := iterStops(b, pairs); msg != "" {
+			return []any{"err", msg}, nil
+		}
 		return []any{"set", pairs}, nil
 	case "Flush":
 		if e := s.db.Flush(); e != nil {
@@ -521,4 +527,45 @@ func TestReplayOne(t *testing.T) {
 			return
 		}
 	}
+}
+
+
+// iterStops drives b.Iter() by hand and stops it after n = 1..len(full) entries.
+func iterStops(b chain.DBBucket, full [][]string) (msg string) {
+	defer func() {
+		if r := recover(); r != nil {
+			msg = fmt.Sprintf("early-stopped iteration panicked: %v", r)
+		}
+	}()
+	in := map[string]string{}
+	for _, p := range full {
+		in[p[0]] = p[1]
+	}
+	for n := 1; n <= len(full); n++ {
+		calls := 0
+		seen := map[string]bool{}
+		bad := ""
+		b.Iter()(func(k, v []byte) bool {
+			calls++
+			if calls > n {
+				bad = fmt.Sprintf("iteration stopped by the consumer after %d entries called yield again (call %d, key %q)", n, calls, k)
+				return false
+			}
+			if w, ok := in[string(k)]; !ok || w != string(v) {
+				bad = fmt.Sprintf("early-stopped iteration delivered (%q, %q), not part of the full iteration", k, v)
+			}
+			if seen[string(k)] {
+				bad = fmt.Sprintf("early-stopped iteration delivered key %q twice", k)
+			}
+			seen[string(k)] = true
+			return calls < n
+		})
+		if bad != "" {
+			return bad
+		}
+		if calls != n {
+			return fmt.Sprintf("iteration asked for %d of %d entries delivered %d", n, len(full), calls)
+		}
+	}
+	return ""
 }
